@@ -39,12 +39,28 @@ func init() {
 			mk(func(k *udpCase) {
 				k.Scripts = []sim.Script{{ClientWrites: many, ServerWrites: []int{10}, MaxRead: 65536, ServerStallMs: 3000}}
 			})
-			// a long path (300 ms round trip) with a large window in flight and single losses
+			// paced writer (one segment in flight at a time) against a reader that stalls until the
+			// receive window is exactly closed with nothing outstanding: only a later ack with an
+			// unchanged cumulative ack can reopen it
+			for _, pg := range [][2]int{{1000, 9000}, {2500, 14000}} {
+				pg := pg
+				mk(func(k *udpCase) {
+					paced := make([]int, 4300)
+					for j := range paced {
+						paced[j] = 16
+					}
+					k.Multiplex = 1
+					k.ClientPattern, k.ServerPattern = patJSON(nil), patJSON(nil)
+					k.Scripts = []sim.Script{{ClientWrites: paced, ServerWrites: []int{10}, MaxRead: 65536, ServerStallMs: pg[1], WriteGapUs: pg[0]}}
+				})
+			}
+			// a long, bandwidth-limited path (300 ms round trip, 1 MB/s) with single losses
 			mk(func(k *udpCase) {
 				k.Faults.LatencyMs = 150
-				k.Faults.DropC2S = []int{40, 41, 90}
+				k.Faults.RateKBps = 1000
+				k.Faults.DropC2S = []int{300, 620}
 				k.Faults.DropS2C = []int{30}
-				k.Scripts = []sim.Script{{ClientWrites: []int{65536, 65536, 65536, 65536}, ServerWrites: []int{65536, 65536}, MaxRead: 65536}}
+				k.Scripts = []sim.Script{{ClientWrites: []int{65536, 65536, 65536, 65536, 65536, 65536, 65536, 65536, 65536, 65536}, ServerWrites: []int{65536, 65536}, MaxRead: 65536}}
 			})
 			// the open request (with a piggy-backed first write) is lost; the open response is lost
 			mk(func(k *udpCase) {
@@ -85,8 +101,9 @@ func init() {
 			for _, drop := range [][2][]int{{{0}, nil}, {nil, {0}}, {{0, 1}, {0}}} {
 				k := genUDPCase(c.Rand, 20000, false)
 				k.Faults = sim.FaultSpec{Seed: c.Rand.Int63(), DelayMs: 20, DropC2S: drop[0], DropS2C: drop[1]}
-				k.Scripts = []sim.Script{{ClientWrites: []int{700, 5000}, ServerWrites: []int{3000}, MaxRead: 1500}}
-				k.TimeoutS = 180
+				k.Scripts = []sim.Script{{ClientWrites: []int{700, 5000}, ServerWrites: []int{3000}, MaxRead: 1500},
+					{ClientWrites: []int{700, 600, 5000}, ServerWrites: []int{3000}, MaxRead: 1500}}
+				k.TimeoutS = 60
 				cases = append(cases, k)
 			}
 			n = len(cases)
